@@ -1,6 +1,7 @@
 package checks
 
 import (
+	"sync/atomic"
 	"crypto/tls"
 	"context"
 	"errors"
@@ -127,6 +128,7 @@ type srvWorld struct {
 	// closed, and its Serve has to return, when the server is closed or shut down
 	ln2        *fakeListener
 	serve2Done bool
+	inLog      atomic.Int64 // goroutines of the server that are inside Server.ErrorLog right now
 }
 
 // c20Plan returns the backend's plan for a scenario (shared by the schedule explorer and the race replays).
@@ -198,6 +200,14 @@ func (w *srvWorld) Start(x *h.Exec) {
 		return true
 	}
 	w.log = &h.LogBuf{}
+	if gateSet["log"] {
+		// the application's logger is a scheduling point; a goroutine inside it is a goroutine of the server still running
+		w.log.Gate = func() {
+			w.inLog.Add(1)
+			x.Point("log:write")
+			w.inLog.Add(-1)
+		}
+	}
 	w.srv = h.Config{LMTP: sc.LMTP, MaxMessageBytes: sc.MaxBytes}.NewServer(w.be, w.log)
 	w.ln = &fakeListener{w: w, ch: make(chan interface{}), closed: make(chan struct{})}
 	w.ctx, w.cancel = context.WithCancel(context.Background())
@@ -266,6 +276,11 @@ func (w *srvWorld) Events() []h.SchedEvent {
 					c.client.Out.End(io.EOF)
 					return
 				}
+				if segs[k] == "<RST>" {
+					c.gone = true
+					c.client.Out.End(&net.OpError{Op: "read", Net: "tcp", Err: errors.New("connection reset by peer")})
+					return
+				}
 				c.client.Write([]byte(segs[k]))
 			}})
 		}
@@ -282,6 +297,9 @@ func (w *srvWorld) Events() []h.SchedEvent {
 			case "shutdown", "shutdown2":
 				go func() {
 					r.err = w.srv.Shutdown(w.ctx)
+					if r.err == nil && w.inLog.Load() > 0 {
+						r.early = "Shutdown returned nil while a connection handler of the server was still running (it is inside Server.ErrorLog, reporting how its connection ended)"
+					}
 					// Shutdown may only come back once every connection has finished, unless the context
 					// is done or the server was already stopped
 					if r.err != smtp.ErrServerClosed && w.ctx.Err() == nil {
@@ -564,6 +582,10 @@ func c20Scenarios(tier string) []SrvScenario {
 			out = append(out, SrvScenario{Name: fmt.Sprintf("F2-lmtp-duplicate-rcpt-one-status-%s%d-%d", strings.Fields(tail[0])[0], len(tail), len(admin)), LMTP: true, Accepts: []string{"conn"}, Clients: [][]string{append([]string{lmDup}, tail...)}, Admin: admin, Gates: []string{"status", "return"}, Plan: "status-for-first-occurrence-only", Chunked: tail[0][0] == 'B'})
 		}
 	}
+	// a connection that ends with an error (reset by peer): its handler reports that through Server.ErrorLog - application
+	// code, a scheduling point here - and Shutdown returns only when that handler has finished too
+	out = append(out, SrvScenario{Name: "F3-shutdown-while-a-handler-reports-its-error", Accepts: []string{"conn"}, Clients: [][]string{{"EHLO c.example\r\n", "<RST>"}}, Admin: []string{"shutdown"}, Gates: []string{"log"}})
+	out = append(out, SrvScenario{Name: "F3-shutdown-two-conns-one-reset", Accepts: []string{"conn", "conn"}, Clients: [][]string{{"EHLO c1.example\r\n", "<RST>"}, {"EHLO c2.example\r\n", "QUIT\r\n"}}, Admin: []string{"shutdown", "close2"}, Gates: []string{"log"}})
 	// a backend whose Logout returns an error: the connection is closed all the same
 	out = append(out, SrvScenario{Name: "F3-logout-returns-an-error-close", LogoutErr: true, Accepts: []string{"conn"}, Clients: [][]string{{"EHLO c.example\r\n", "NOOP\r\n"}}, Admin: []string{"close"}})
 	out = append(out, SrvScenario{Name: "F3-logout-returns-an-error-quit-shutdown", LogoutErr: true, Accepts: []string{"conn"}, Clients: [][]string{{"EHLO c.example\r\n", "QUIT\r\n"}}, Admin: []string{"shutdown"}})
